@@ -80,6 +80,8 @@ def grid(tier: str) -> List[Dict[str, Any]]:
                         "sibling": True, "jitter": jit})
 
         pts.append({"q": q, "probe": probe, "id": id_, "port": port, "fam": fam, "age": age, "socks": socks, "jitter": jit})
+        if q == "ptr-qm" and fam == "v4" and age == "fresh" and not probe and jit == jitters[0] and socks != "single6":
+            pts.append({"fam": "big", "socks": socks, "port": port, "id": id_ or 0x3a7b if port != 5353 else id_})
         if fam == "v6" and age in ("400ms", "fresh", "30s+1", "5000s"):
             # the query arrived from a link-local address of another zone than the receiving socket's own (a socket bound to
             # the wildcard address hears every link): the reply has to go back to that zone
@@ -88,7 +90,59 @@ def grid(tier: str) -> List[Dict[str, Any]]:
     return pts
 
 
+def run_big(p: Dict[str, Any], verbose: bool = False) -> Tuple[Optional[Dict[str, Any]], str, int]:
+    """A type with dozens of instances: the unicast reply to a legacy (or QU) query does not fit one datagram.  Every datagram
+    of it goes to the querier, carries the query's id and no cache-flush bit; together they hold every pointer."""
+    problems: List[str] = []
+    n_inst = 40
+    with World(rand=RandPolicy.const(0.0)) as w:
+        host = w.new_zeroconf(mode=p["socks"])
+        many = [Svc(TA, f"inst{i:02d}._a._tcp.local.", f"host{i:02d}.local.", 8000 + i, b"\x09key=value", [bytes([10, 0, 1, i])], [])
+                for i in range(n_inst)]
+        for s in many:
+            register(w, host, make_info(s), cooperating_responders=True)
+        w.advance(3000)
+        legacy = p["port"] != 5353
+        src = ("10.0.0.99", p["port"])
+        data = wire.query([("Q", TA, 12, 1 if legacy else 0x8001)], id_=p["id"])
+        rx = host.transports()[0] if p["socks"] == "single" else [t for t in host.transports() if t.sock.role == ("respond" if legacy else "listen") and t.sock.family == socket.AF_INET][0]
+        n0 = len(w.net.trace)
+        rx.protocol.datagram_received(data, src)
+        w.settle()
+        w.advance(1500)
+        from ..scen import Decoded
+        dec = [Decoded(s) for s in w.net.trace[n0:] if s.host == host.name]
+        uni = [d for d in dec if not d.multicast]
+        if len(uni) < 2:
+            problems.append(f"big: {len(uni)} unicast datagram(s) for {n_inst} instances (the scenario expects a reply of several)")
+        ptrs = set()
+        for k, d in enumerate(uni):
+            if tuple(d.sent.dest[:2]) != src:
+                problems.append(f"big: unicast datagram {k} sent to {d.sent.dest}, query came from {src}")
+            if d.msg.id != p["id"]:
+                problems.append(f"big: unicast datagram {k} of {len(uni)} carries id {d.msg.id:#x}, the query had {p['id']:#x}")
+            if not d.is_response:
+                problems.append(f"big: unicast datagram {k} is not flagged as a response")
+            if any(r[2] & 0x8000 for r in d.msg.records()):
+                problems.append(f"big: unicast datagram {k} carries cache-flush bits")
+            ptrs |= {str(r[4]).lower() for r in d.msg.answers if r[0] == "PTR"}
+        if legacy and uni and [(q[1], q[2]) for q in uni[0].msg.questions] != [(TA, 12)]:
+            problems.append(f"big: the first datagram echoes {uni[0].msg.questions}")
+        if uni and ptrs != {s.name for s in many}:
+            problems.append(f"big: the unicast reply holds {len(ptrs)} of {n_inst} pointers")
+        excs = w.exceptions()
+        if excs:
+            problems.append(f"exception in the event loop: {excs[0]}")
+        obs = digest([(round(d.t_ms, 3), d.sent.dest[:2], len(d.sent.data)) for d in dec])
+    verdict = None
+    if problems:
+        verdict = {"what": f"C11 {p}: {problems[0]}", "replay": {"problems": problems[:5]}, "signature": {"check": problems[0].split(":")[0]}}
+    return verdict, obs, w.loop.handles_run
+
+
 def run_point(p: Dict[str, Any], verbose: bool = False) -> Tuple[Optional[Dict[str, Any]], str, int]:
+    if p.get("fam") == "big":
+        return run_big(p, verbose)
     problems: List[str] = []
     with World(rand=RandPolicy.const(p.get("jitter", 0.0))) as w:
         host = w.new_zeroconf(mode=p["socks"])
